@@ -37,6 +37,10 @@ type rwOptions struct {
 
 func rwRun(t *testing.T, c rwCase, opt rwOptions) (res rwResult) {
 	res.Classes = map[string]int{}
+	if wi := vfWatch.Load(); wi != nil {
+		stop := vfLockWatchdog(wi.st, wi.prop, wi.part, c, 180*time.Second)
+		defer stop()
+	}
 	gates := &c08Gates{armed: map[string]chan struct{}{}, parked: map[string]bool{}}
 	for _, o := range c.Ops {
 		if o.Window {
@@ -176,7 +180,19 @@ func rwApply(w *rwWorld, o rwOp) {
 			return
 		}
 		w.confirm(t, len(t.incs)-1, low)
-		inc.ss.Push(&vfReq{Attributes: &adminservice.StreamWorkflowReplicationMessagesRequest_SyncReplicationState{SyncReplicationState: &replicationv1.SyncReplicationState{InclusiveLowWatermark: low}}})
+		state := &replicationv1.SyncReplicationState{InclusiveLowWatermark: low}
+		if o.Lanes != 0 {
+			ahead := low + int64(1+o.N%7)
+			state.HighPriorityState = &replicationv1.ReplicationState{InclusiveLowWatermark: low}
+			state.LowPriorityState = &replicationv1.ReplicationState{InclusiveLowWatermark: low}
+			if o.Lanes == 1 {
+				state.HighPriorityState.InclusiveLowWatermark = ahead
+			} else {
+				state.LowPriorityState.InclusiveLowWatermark = ahead
+			}
+			w.classes["target_reports_per_priority_lanes"]++
+		}
+		inc.ss.Push(&vfReq{Attributes: &adminservice.StreamWorkflowReplicationMessagesRequest_SyncReplicationState{SyncReplicationState: state}})
 	case "stall":
 		if o.Side == "S" {
 			if inc := w.liveS(o.I % len(w.sources)); inc != nil && inc.cs != nil {
@@ -589,7 +605,7 @@ func rwGenCase(t *rapid.T, faults bool) rwCase {
 			if j == silent {
 				c.Ops = append(c.Ops, rwOp{K: "idle"})
 			} else {
-				c.Ops = append(c.Ops, rwOp{K: "ack", I: j})
+				c.Ops = append(c.Ops, rwOp{K: "ack", I: j, Lanes: rapid.SampledFrom([]int{0, 0, 1, 2}).Draw(t, "lanes"), N: rapid.IntRange(0, 6).Draw(t, "laneGap")})
 			}
 		case x < 77:
 			c.Ops = append(c.Ops, rwOp{K: "stall", Side: rapid.SampledFrom([]string{"T", "T", "S"}).Draw(t, "ss"), I: rapid.IntRange(0, 5).Draw(t, "si")})
@@ -699,6 +715,7 @@ func TestVF_C01_Rapid(t *testing.T) {
 	}
 	st := vfshared.NewStats("C01", part, c01Rule)
 	defer st.Flush()
+	vfSetWatch(st, "C01", part)
 	run := func(tt interface{ Fatalf(string, ...any) }, c rwCase) {
 		res := rwRun(t, c, rwOptions{})
 		if len(res.Panics) > 0 {
@@ -738,6 +755,7 @@ func TestVF_C02_Rapid(t *testing.T) {
 	}
 	st := vfshared.NewStats("C02", part, c02Rule)
 	defer st.Flush()
+	vfSetWatch(st, "C02", part)
 	run := func(tt interface{ Fatalf(string, ...any) }, c rwCase) {
 		res := rwRun(t, c, rwOptions{drain: true})
 		if len(res.Panics) > 0 {
@@ -796,6 +814,7 @@ func TestVF_C03_Rapid(t *testing.T) {
 	}
 	st := vfshared.NewStats("C03", part, c03Rule)
 	defer st.Flush()
+	vfSetWatch(st, "C03", part)
 	run := func(tt interface{ Fatalf(string, ...any) }, c rwCase) {
 		res := rwRun(t, c, rwOptions{drain: true, epilogue: true})
 		if len(res.Panics) > 0 {
@@ -921,6 +940,7 @@ func TestVF_C04_Rapid(t *testing.T) {
 	}
 	st := vfshared.NewStats("C04", part, c04Rule)
 	defer st.Flush()
+	vfSetWatch(st, "C04", part)
 	if f := vfshared.ReplayFile(); f != "" {
 		var c rwCase
 		if _, err := vfshared.LoadReplay(f, &c); err != nil {
@@ -944,6 +964,7 @@ func TestVF_C04_Systematic(t *testing.T) {
 	}
 	st := vfshared.NewStats("C04", part, c04Rule)
 	defer st.Flush()
+	vfSetWatch(st, "C04", part)
 	if f := vfshared.ReplayFile(); f != "" {
 		var c rwCase
 		if _, err := vfshared.LoadReplay(f, &c); err != nil {
